@@ -103,7 +103,9 @@ FirstFailed == LET bad == SelectSeq(Clauses, LAMBDA c : ~c[2]) IN IF bad = <<>> 
 Init == tid \in 1..Len(Traces) /\ done = FALSE /\ why = ""
 Check == /\ ~done /\ done' = TRUE /\ UNCHANGED tid
          \* label range first: the other clauses index by label
-         /\ why' = IF ~SizeOK THEN "size" ELSE IF ~LabelRangeOK THEN "label_range" ELSE FirstFailed
+         \* (traces recorded for C15 carry the global tables only: mode = "fix" evaluates the fix clause alone)
+         /\ why' = IF Tr.mode = "fix" THEN (IF ~LabelRangeOK THEN "label_range" ELSE IF FixOK THEN "" ELSE "fix_window")
+                   ELSE IF ~SizeOK THEN "size" ELSE IF ~LabelRangeOK THEN "label_range" ELSE FirstFailed
 Spec == Init /\ [][Check]_vars
 Mark == TLCSet(tid, IF ~done THEN TLCGet(tid) ELSE IF why = "" THEN <<1, "accepted">> ELSE <<1, why>>)
 Post == \A i \in 1..Len(Traces) : PrintT(<<"VERDICT", i, TLCGet(i)>>)
